@@ -740,7 +740,15 @@ func fixedLenOf(name string) (int64, bool) {
 
 // knownLen: terms whose byte length is fixed by construction (ideal hash
 // outputs, base64 of a fixed-length input, fixed-size random values).
+// abstractHashLen: when set (per harness, constant while it runs) ideal hash
+// outputs have no fixed length (abstract MAC/digest), which keeps them inside
+// small string bounds.
+var abstractHashLen bool
+
 func knownLen(s *Term) (int64, bool) {
+	if abstractHashLen && strings.HasPrefix(s.op, "uf:") {
+		return 0, false
+	}
 	switch {
 	case s.op == "str":
 		return int64(len(s.sval)), true
